@@ -48,7 +48,10 @@ func wgModels(ctx *core.Ctx, f func(i int, tm gen.Tagged) bool) {
 			ctx.Cap("wall-clock cap inside the special / three-relation / nested families")
 			return
 		}
-		if !f(j, tm) {
+		wgSpecial = j < nSpecial
+		cont := f(j, tm)
+		wgSpecial = false
+		if !cont {
 			return
 		}
 	}
@@ -80,7 +83,7 @@ const wgRule = "graph-model alphabet: types user, group (terminal), folder {a: [
 	"(direct assignment with 3 (quick) / 11 (thorough) restriction lists incl. wildcards, conditions, usersets of self/other/folder; computed self/other; TTU self/other over p) " +
 	"and every union / intersection / exclusion of two leaves, x 3 tupleset variants p in {[doc],[folder],[doc,folder]}; plus the TTU-defect family, the interlocking-cycles family (direct assignments mixing a terminal type, the relation's own userset and its neighbours' usersets in every order, with and without TTUs; two and three relations), the same-target family (one operator reaching a relation by a rewrite or TTU edge and by a direct userset edge, in both operand orders, with conditions), the tupleset-list family (tupleset restricted to every list of 1-3 entries with repetition over {doc, doc with k, folder, folder with k, a type without the relation}; TTU alone, under union / intersection, and on a cycle), the second-route family (three relations, each a union of a direct assignment to user and the others' usersets with computed and TTU references to the others: 512 models), size sweeps (operands, relations, types on one tuple cycle, restrictions, userset / TTU / computed chains of n hops, parent types of a tupleset, public types on one relation; n = 13, 33, 65 quick / 11 sizes up to 100 thorough), three-relation models rich in cycles and nested / three-operand rewrites " +
 	"(quick: every 4th). Each model is built under every map-iteration schedule within the budgets: depth-first start orders fully permuted for graphs with <= 5 (quick) / <= 6 (thorough) relation and operator nodes " +
-	"(type and wildcard nodes pinned last there), every single root deviation (quick) / every pair (thorough) otherwise; every single inner-map deviation; thorough: one root x one inner deviation and two inner deviations. "
+	"(type and wildcard nodes pinned last there), every single root deviation (quick) / every pair (thorough) otherwise; every single inner-map deviation; the special families also one root deviation together with one inner-map deviation; thorough: that for every model, and two inner deviations. "
 
 var wgAssume = []string{
 	"map iteration order is owned by source rewriting of every `range <map>` in pkg/go/graph (13 sites of the weighted graph); every permutation is a behaviour the Go specification allows",
